@@ -216,6 +216,15 @@ theorem builder_forwards_options (g : Ext K) (t : Nat) :
     (Microlp.new : Microlp (Ext K)).options = { mipGap := none, timeLimitNs := none } := by
   simp [Microlp.new, Microlp.withMipGap, Microlp.withTimeLimit, Microlp.options]
 
+omit [Field K] [LinearOrder K] [IsStrictOrderedRing K] [FloorRing K] in
+/-- setting an option twice on one `Microlp` value: the LAST call wins (the object equals a fresh one carrying only the
+last value). -/
+theorem builder_last_call_wins (m : Microlp (Ext K)) (g1 g2 : Ext K) (t1 t2 : Nat) :
+    (m.withMipGap g1).withMipGap g2 = m.withMipGap g2 ∧
+    (m.withTimeLimit t1).withTimeLimit t2 = m.withTimeLimit t2 ∧
+    ((m.withMipGap g1).withTimeLimit t1).withMipGap g2 = (m.withTimeLimit t1).withMipGap g2 := by
+  simp [Microlp.withMipGap, Microlp.withTimeLimit]
+
 /-- solving through the builder object IS solving with the options struct it carries. -/
 theorem builder_solve_eq (gap : Option (Ext K)) (limit : Option Nat) (lm : LinModel (Ext K)) (search : Search K) :
     (Microlp.build gap limit).solve lm search = solveMilpWith lm { mipGap := gap, timeLimitNs := limit } search ∧
